@@ -143,11 +143,9 @@ PROPS = {
         "assumptions": ["operands are independently built (no shared backing arrays); Stack/Condition values inside slice, map or struct leaves are outside the universe",
                         "user Operator methods and EqualityPolicy closures are pure and do not panic"],
         "level_text": "Lean 4 theorems over the model of IsEqual/valuesEqual for all values of the reflect universe EV: C05_iff (IsEqual = nil iff same description, "
-                      "on the property's domain), C05_refl, C05_symm, C05_point_mutation(_leaf) at any depth and position; C05_total is proved under the hypothesis "
-                      "that embedded struct fields on both sides have one visibility (C05_total_partial) and refuted without it (C05_total_refuted, known finding K-C05-1)",
+                      "on the property's domain), C05_refl, C05_symm, C05_point_mutation(_leaf) at any depth and position, C05_total (never panics, every value)",
         "explanation": "S line: inside the domain the verdict of the independent specification sameDesc; outside it the specification only demands 'no panic' and the line "
-                       "repeats the model's verdict. Known findings K-C05-1 (mixed-visibility embedded fields panic) and K-C05-2 (a one-private-field struct equals any "
-                       "Stack/Condition on its right) are residual defects of the repaired code, tagged by the driver (C05.MixedEmbedded / C05.HandleLike).",
+                       "repeats the model's verdict. K-C05-1 / K-C05-2 (found by this check in the first round of repairs) are fixed; their inputs are regression cases.",
     },
     "C04": {
         "lean": ["Stackage.Props.C04"],
